@@ -739,6 +739,10 @@ func genWork(seed uint64) (twork, simrt.FaultPlan, simrt.MapPolicy, uint64) {
 	}
 	if fr.Chance(0.2) {
 		fp.ClockJumpRate = 0.02 * fr.Float()
+		// C13 says nothing about how long the tool may take: the injected jumps of a run stay
+		// within half a minute of simulated time, so that a generous timeout in the tool (ten
+		// minutes to get a database connection, say) is never what decides a run
+		fp.ClockJumpBudgetMs = 30000
 	}
 	mp := simrt.MapPolicy(1 + fr.Intn(5))
 	return w, fp, mp, fr.Uint64()
